@@ -27,3 +27,47 @@ Theorem C10_domains :
      leb str_cmp (fst a) (fst b) = true /\ geb str_cmp (fst a) (fst b) = true).
 Proof. exact domains_coherent. Qed.
 Print Assumptions C10_domains.
+
+(* ---- sorted(), min(), max(): deterministic for every kind (Proofs/C10Sort.v).  `key` is the object's canonical form
+   (for domains its name); objects of different subclasses may share a key, so the statements are about the sequence
+   of canonical forms, about being an ascending permutation, and about stability (key-equal objects keep their input
+   order), with no assumption that the key is injective. ---- *)
+From Coq Require Import Permutation Sorted.
+From DSD Require Import Proofs.C10Sort.
+Import ListNotations.
+
+Theorem C10_sorted_lists_the_same_canonical_forms_in_every_arrangement :
+  forall (A K : Type) (key : A -> K) (cmp : K -> K -> comparison), good_cmp cmp ->
+  forall l l', Permutation l l' -> map key (sort_by key cmp l) = map key (sort_by key cmp l').
+Proof. exact (@sorted_keys_deterministic). Qed.
+Print Assumptions C10_sorted_lists_the_same_canonical_forms_in_every_arrangement.
+
+Theorem C10_sorted_is_an_ascending_permutation :
+  forall (A K : Type) (key : A -> K) (cmp : K -> K -> comparison), good_cmp cmp ->
+  forall l, Permutation (sort_by key cmp l) l /\
+            StronglySorted (fun x y => leb cmp (key x) (key y) = true) (sort_by key cmp l).
+Proof. intros A K key cmp G l. exact (conj (sorted_is_permutation key cmp l) (sorted_ascending key cmp G l)). Qed.
+Print Assumptions C10_sorted_is_an_ascending_permutation.
+
+Theorem C10_sorted_is_stable :
+  forall (A K : Type) (key : A -> K) (cmp : K -> K -> comparison), good_cmp cmp ->
+  forall k l, filter (fun y => eqb cmp (key y) k) (sort_by key cmp l) = filter (fun y => eqb cmp (key y) k) l.
+Proof. exact (@sorted_stable). Qed.
+Print Assumptions C10_sorted_is_stable.
+
+Theorem C10_min_and_max_are_the_ends_of_sorted :
+  forall (A K : Type) (key : A -> K) (cmp : K -> K -> comparison), good_cmp cmp ->
+  forall l, (forall x r, sort_by key cmp l = x :: r -> forall y, In y l -> leb cmp (key x) (key y) = true) /\
+            (forall pre x, sort_by key cmp l = pre ++ [x] -> forall y, In y l -> leb cmp (key y) (key x) = true).
+Proof.
+  intros A K key cmp G l.
+  exact (conj (sorted_head_is_minimum key cmp G l) (sorted_last_is_maximum key cmp G l)).
+Qed.
+Print Assumptions C10_min_and_max_are_the_ends_of_sorted.
+
+(* the orders of all five kinds are instances *)
+Theorem C10_every_kind_is_ordered_by_a_good_comparison :
+  good_cmp str_cmp /\ good_cmp ckey_cmp /\ good_cmp mkey_cmp /\
+  good_cmp (rkey_cmp ckey_cmp) /\ good_cmp (rkey_cmp mkey_cmp).
+Proof. exact (conj good_str (conj good_ckey (conj good_mkey (conj (good_rkey _ good_ckey) (good_rkey _ good_mkey))))). Qed.
+Print Assumptions C10_every_kind_is_ordered_by_a_good_comparison.
